@@ -12,13 +12,21 @@ Fixpoint list_eqb {A} (e : A -> A -> bool) (a b : list A) : bool :=
    fitted data id (0 = unfitted), knots sources at fit time, "prediction equals that of a fresh model fitted on the same data" *)
 Record mobs := mkObs { o_ids : list nat; o_knots : list (option nat); o_data : nat; o_fresh_equal : bool }.
 
+(* a LinearTerm's edge_knots_ do not enter its column: masked for the "equals a fresh fit" flag *)
+Fixpoint mask (h : heap) (d : nat) (ids : list nat) (l : list (option nat)) : list (option nat) :=
+  match ids, l with
+  | i :: r, k :: s => (match t_kind (get_t h i) with KLinear => Some d | _ => k end) :: mask h d r s
+  | _, _ => []
+  end.
+
 Definition model_obs (h : heap) (m : nat) : mobs :=
   let mo := get_m h m in
   let cur := knots_of (h_terms h) (m_terms mo) in
   match m_fit mo with
   | None => mkObs (m_terms mo) cur 0 false
   | Some (d, kn) => mkObs (m_terms mo) cur d
-                      (list_eqb onat_eqb kn (map (fun _ => Some d) (m_terms mo)) && list_eqb onat_eqb cur kn)
+                      (list_eqb onat_eqb (mask h d (m_terms mo) kn) (map (fun _ => Some d) (m_terms mo)) &&
+                       list_eqb onat_eqb (mask h d (m_terms mo) cur) (mask h d (m_terms mo) kn))
   end.
 
 Definition mobs_eqb (a b : mobs) : bool :=
